@@ -13,11 +13,17 @@
 #include <cstdint>
 #include <cstdio>
 #include <cstring>
+#include <cerrno>
+#include <csignal>
+#include <fcntl.h>
 #include <map>
 #include <memory>
 #include <string>
 #include <unordered_map>
 #include <vector>
+
+#include <sys/wait.h>
+#include <unistd.h>
 
 #include "galois/Galois.h"
 #include "galois/graphs/FileGraph.h"
@@ -125,7 +131,7 @@ enum {
   K_LCMORPH_AUX,       // LC_Morph_Graph via allocateFrom/constructNodesFrom/constructEdgesFrom
   K_ADAPTOR,           // LC_Adaptor_Graph over user arrays
   K_MORPH_READGRAPH,   // MorphGraph via readGraph (directed / in-out / undirected)
-  K_INOUT_OTHER,       // LC_InOut_Graph over LC_Linear_Graph / LC_InlineEdge_Graph
+  K_INOUT_OTHER,       // LC_InOut_Graph over LC_Linear_Graph
   K_HYPER,             // LC_CSR_Hypergraph (allocateFrom + per-thread constructFrom)
   K_COUNT
 };
@@ -346,6 +352,37 @@ inline bool has_edge(const Adj& adj, uint32_t u, uint32_t v) {
     if (e.dst == v)
       return true;
   return false;
+}
+
+// Run f in a forked child and report how it ended: 0 = returned, otherwise the
+// terminating signal (or 1000 + exit status).  Used only for calls that are
+// expected to be able to crash the process (a crash in-process would end the
+// whole search without a shrunk counterexample).  The child runs on the calling
+// thread only, so f must not need the thread pool.
+template <class F>
+inline int probe_in_child(F f) {
+  fflush(nullptr);
+  pid_t pid = fork();
+  if (pid < 0)
+    return 0;
+  if (pid == 0) {
+    int dn = open("/dev/null", O_WRONLY);
+    if (dn >= 0) {
+      dup2(dn, 2);
+      dup2(dn, 1);
+    }
+    signal(SIGSEGV, SIG_DFL);
+    signal(SIGABRT, SIG_DFL);
+    signal(SIGBUS, SIG_DFL);
+    f();
+    _exit(0);
+  }
+  int st = 0;
+  while (waitpid(pid, &st, 0) < 0 && errno == EINTR) {
+  }
+  if (WIFSIGNALED(st))
+    return WTERMSIG(st);
+  return WEXITSTATUS(st) ? 1000 + WEXITSTATUS(st) : 0;
 }
 
 // silence gPrint chatter of readGraphFromGRFile (stdout carries the driver's verdict lines)
